@@ -780,6 +780,12 @@ def parse_module(text):
                     cur = Block(str(n_unnamed))
                     fn.blocks.append(cur)
                     fn.bmap[cur.name] = cur
+                if s.startswith("switch ") and "]" not in l:
+                    while "]" not in lines[i]:
+                        l += " " + lines[i].strip()
+                        i += 1
+                    l += " " + lines[i].strip()
+                    i += 1
                 toks = tokenize(l)
                 # strip trailing metadata / attribute groups
                 cut = len(toks)
